@@ -191,13 +191,17 @@ KeyRemoveCurrent ==
   /\ In({"keys"})
   /\ Emit("key-remove-current") /\ UNCHANGED <<snaps, ver, nkeys, waste, copied>>
 
-\* `recover` builds a snapshot from the root trees no snapshot references (left by interrupted backups, forget)
+\* `recover` builds a snapshot from the root trees no snapshot references (left by interrupted backups, forget).
+\* It is NOT part of family "all" (C15): by design it takes whatever trees it finds, including trees of an
+\* interrupted backup whose data packs never arrived, and `check` then rightly reports the recovered snapshot as
+\* incomplete (observed: backup with a failed data-pack upload, then recover).  Family "recover" is for
+\* experiments only.
 Recover ==
-  /\ In({"all"}) /\ snaps < MaxSnaps /\ waste
+  /\ In({"recover"}) /\ snaps < MaxSnaps /\ waste
   /\ Emit("recover") /\ snaps' = snaps + 1 /\ UNCHANGED <<ver, nkeys, waste, copied>>
 
 RecoverCrash ==
-  /\ In({"all"}) /\ waste
+  /\ In({"recover"}) /\ waste
   /\ \E k \in CrashPoints : Emit("recover!" \o N(k))
   /\ UNCHANGED <<snaps, ver, nkeys, waste, copied>>
 
